@@ -89,9 +89,12 @@ def variable_files(draw, keys_global: List[str], keys_stage: Dict[str, List[str]
             else:
                 files[i]["stages"].setdefault(sc, {})[k] = val
     order = list(draw(st.permutations(list(range(nfiles)))))
-    if nfiles >= 2 and draw(st.integers(0, 5)) == 0:
-        # the same path given twice: [.., x, .., x] must still behave as "layered in the order given"
-        order.insert(draw(st.integers(0, len(order))), draw(st.sampled_from(order)))
+    if nfiles >= 2 and draw(st.integers(0, 3)) == 0:
+        # the same path given twice: [x, .., x] must still behave as "layered in the order given" (x wins)
+        if draw(st.integers(0, 2)) > 0:
+            order.append(order[0])
+        else:
+            order.insert(draw(st.integers(0, len(order))), draw(st.sampled_from(order)))
     return files, order
 
 
